@@ -18,7 +18,8 @@ META = dict(
               "numbers symbolic), iterable given as list / generator / generator raising at frame k; load_many of the "
               "written file compared with per-frame dump_one + load_one; truncation of the file at every line boundary "
               "(nondeterministic end of file); one corrupted numeric field in any frame; load_many of gro / extxyz / fchk "
-              "trajectories: see C03 harness jobs (independent layout writers); trajectories in the published layouts of gro, "
+              "trajectories written by independent layout writers (1-3 optimisation / IRC points of 2, 1, 3 steps; the harnesses "
+              "of C03); trajectories in the published layouts of gro, "
               "xyz, sdf, mol2, pdb with differing atom counts and one frame whose title is empty or blank: load_many == "
               "per-frame load_one",
         thorough="up to 5 frames"),
@@ -369,6 +370,13 @@ def jobs(tier):
     for fmt in ("gro", "xyz", "sdf", "mol2", "pdb"):
         out.append(job("C13", f"text-trajectory[{fmt}]", M, "h_text_trajectory", dict(fmt=fmt, nframes=nmax), budget_s=300,
                        max_validate=4, max_paths=200))
+    for kind in ("Opt", "IRC"):
+        for npoint in (1, 2, 3):
+            out.append(job("C13", f"fchk-trajectory[{kind},points={npoint}]", "harness.c03", "h_fchk_trajectory", dict(kind=kind, npoint=npoint),
+                           max_validate=3))
+    out.append(job("C13", "gro-trajectory[3 frames]", "harness.c03", "h_gro", dict(natom=2, nframes=3, vel=True, triclinic=False, time=True),
+                   max_validate=2))
+    out.append(job("C13", "extxyz-trajectory[3 frames]", "harness.c03", "h_xyz", dict(nframes=3, ext=True), max_validate=2))
     for order in ((0, 1), (1, 0), (0, 1, 0)):
         out.append(job("C13", f"extxyz-mixed-columns[{order}]", M, "h_extxyz_mixed", dict(order=list(order)), max_validate=2))
     out.append(job("C13", "dump-load-many[twin]", M, "h_dump_load_many", dict(fmt="xyz", nframes=2, twin=True),
